@@ -1,4 +1,6 @@
 import TruthModel.Model.Time
+import TruthModel.Model.TimeDelta
+import TruthModel.Props.C11
 /-
 C13 — every instruction gets exactly the time its labels say.
 
@@ -475,3 +477,362 @@ example : raise [⟨10, some (0, some 0)⟩, ⟨20, some (1, some 10)⟩]
       = .ok [.label .start, .rel 10, .instr, .label (.before 0), .rel 10, .instr] := by decide
 
 end TruthModel.C13
+
+/-! # second round: interrupt labels, difficulty tags, `goto L @ t` / `timeof(L)`, `else` branches,
+nested functions, const-expression deltas (model: `Time.X`, appended to `Model/Time.lean`) -/
+namespace TruthModel.C13.Ext
+open TruthModel TruthModel.Time TruthModel.C13
+
+/-- the state of the extended visitor after statements that produce the records `rs`, end at time
+`t'` and contain a non-constant delta iff `bad`: only the top of the time stack moved, both
+stacks have their old depth -/
+def after (st : X.VState) (t' : Int32) (rs : List X.Rec) (bad : Bool) : X.VState :=
+  { st with timeStack := t' :: st.timeStack.tail, failed := st.failed || bad, out := rs.reverse ++ st.out }
+
+theorem after_id (st : X.VState) (t : Int32) (rest : List Int32) (hs : st.timeStack = t :: rest) :
+    after st t [] false = st := by
+  cases st; simp_all [after]
+
+mutual
+theorem visitStmt_after (s : X.Stmt) (st : X.VState) (t : Int32) (rest : List Int32) (m : X.Mask) (drest : List X.Mask)
+    (hs : st.timeStack = t :: rest) (hd : st.diffStack = m :: drest) (hp : st.panicked = none) :
+    X.visitStmt st s = after st (X.endStmt t s) (X.recsStmt t m rest.length s) (X.badStmt s) := by
+  cases s with
+  | abs v => cases st; simp_all [X.visitStmt, after, X.record, X.shallow, X.endStmt, X.recsStmt, X.badStmt]
+  | rel d => cases st; simp_all [X.visitStmt, after, X.record, X.shallow, X.endStmt, X.recsStmt, X.badStmt]
+  | relBad => cases st; simp_all [X.visitStmt, after, X.record, X.shallow, X.endStmt, X.recsStmt, X.badStmt]
+  | instr => cases st; simp_all [X.visitStmt, after, X.record, X.endStmt, X.recsStmt, X.badStmt]
+  | interrupt => cases st; simp_all [X.visitStmt, after, X.record, X.endStmt, X.recsStmt, X.badStmt]
+  | label n => cases st; simp_all [X.visitStmt, after, X.record, X.endStmt, X.recsStmt, X.badStmt]
+  | goto d tm => cases st; simp_all [X.visitStmt, after, X.record, X.endStmt, X.recsStmt, X.badStmt]
+  | timeof l => cases st; simp_all [X.visitStmt, after, X.record, X.endStmt, X.recsStmt, X.badStmt]
+  | tagged k s =>
+    have h := visitStmt_after s (X.pushDiff st k) t rest k (m :: drest)
+      (by simp [X.pushDiff, hs]) (by simp [X.pushDiff, hd]) (by simp [X.pushDiff, hp])
+    rw [X.visitStmt, h]
+    cases st; simp_all [after, X.pushDiff, X.popDiff, X.endStmt, X.recsStmt, X.badStmt]
+  | blocks bs =>
+    have h := visitBlocks_after bs (X.record st .block) t rest m drest
+      (by simp [X.record, hs, hd]) (by simp [X.record, hs, hd]) (by simp [X.record, hs, hd, hp])
+    rw [X.visitStmt, h]
+    cases st; simp_all [after, X.record, X.endStmt, X.recsStmt, X.badStmt]
+  | func body =>
+    have h := visitBlock_after body (X.enterBlock (X.enterRoot (X.record st .item))) 0 (t :: rest) X.defaultMask (X.defaultMask :: m :: drest)
+      (by simp [X.enterBlock, X.enterRoot, X.record, hs, hd])
+      (by simp [X.enterBlock, X.enterRoot, X.record, hs, hd])
+      (by simp [X.enterBlock, X.enterRoot, X.record, hs, hd, hp])
+    rw [X.visitStmt, h]
+    cases st; simp_all [after, X.enterBlock, X.enterRoot, X.exitRoot, X.popDiff, X.record, X.endStmt, X.recsStmt, X.badStmt]
+theorem visitBlock_after (ss : List X.Stmt) (st : X.VState) (t : Int32) (rest : List Int32) (m : X.Mask) (drest : List X.Mask)
+    (hs : st.timeStack = t :: rest) (hd : st.diffStack = m :: drest) (hp : st.panicked = none) :
+    X.visitBlock st ss = after st (X.endBlock t ss) (X.recsBlock t m rest.length ss) (X.badBlock ss) := by
+  cases ss with
+  | nil => cases st; simp_all [X.visitBlock, after, X.endBlock, X.recsBlock, X.badBlock]
+  | cons s ss =>
+    have h1 := visitStmt_after s st t rest m drest hs hd hp
+    have h2 := visitBlock_after ss (after st (X.endStmt t s) (X.recsStmt t m rest.length s) (X.badStmt s)) (X.endStmt t s) rest m drest
+      (by simp [after, hs]) (by simp [after, hd]) (by simp [after, hp])
+    rw [X.visitBlock, h1, h2]
+    cases st; simp_all [after, X.endBlock, X.recsBlock, X.badBlock, Bool.or_assoc]
+theorem visitBlocks_after (bs : List (List X.Stmt)) (st : X.VState) (t : Int32) (rest : List Int32) (m : X.Mask) (drest : List X.Mask)
+    (hs : st.timeStack = t :: rest) (hd : st.diffStack = m :: drest) (hp : st.panicked = none) :
+    X.visitBlocks st bs = after st (X.endBlocks t bs) (X.recsBlocks t m rest.length bs) (X.badBlocks bs) := by
+  cases bs with
+  | nil => cases st; simp_all [X.visitBlocks, after, X.endBlocks, X.recsBlocks, X.badBlocks]
+  | cons b bs =>
+    have h1 := visitBlock_after b (X.enterBlock st) t rest m (m :: drest)
+      (by simp [X.enterBlock, hs, hd]) (by simp [X.enterBlock, hd]) (by simp [X.enterBlock, hd, hp])
+    have h2 := visitBlocks_after bs (X.popDiff (after (X.enterBlock st) (X.endBlock t b) (X.recsBlock t m rest.length b) (X.badBlock b)))
+      (X.endBlock t b) rest m drest
+      (by simp [after, X.popDiff, X.enterBlock, hs, hd]) (by simp [after, X.popDiff, X.enterBlock, hd]) (by simp [after, X.popDiff, X.enterBlock, hd, hp])
+    rw [X.visitBlocks, h1, h2]
+    cases st; simp_all [after, X.popDiff, X.enterBlock, X.endBlocks, X.recsBlocks, X.badBlocks, Bool.or_assoc]
+end
+
+/-- **extended visitor = specification.**  For every statement list over the extended language
+(interrupt labels, offset labels, jumps, `timeof`, difficulty-tagged statements, statements with
+several blocks, nested function items; any nesting): the two-stack machine of
+`TimeAndDifficultyHelper` records, for every statement in textual pre-order, the time threaded
+through the text (`N:` sets, `+N:` adds mod 2^32, everything else - interrupt labels, difficulty
+labels, block boundaries, `else` - inherits; a nested function starts at 0 and leaves the
+enclosing time alone) and the lexically enclosing difficulty mask; it fails exactly on a
+non-constant delta and none of its six `expect`/`unwrap` sites is reachable. -/
+theorem xvisitor_eq_spec (body : List X.Stmt) :
+    X.run body = if X.badBlock body then .err constErr
+                 else .ok (X.recsBlock 0 X.defaultMask 0 body) := by
+  have h := visitBlock_after body
+    { timeStack := [0], diffStack := [X.defaultMask, X.defaultMask], failed := false, out := [], panicked := none }
+    0 [] X.defaultMask [X.defaultMask] rfl rfl rfl
+  unfold X.run
+  rw [h]
+  simp [after]
+
+theorem xvisitor_no_panic (body : List X.Stmt) (site : String) : X.run body ≠ .panic site := by
+  rw [xvisitor_eq_spec]; split <;> simp
+
+example : X.run [.abs 10, .instr, .tagged 3 (.blocks [[.rel 5, .label 0, .interrupt], [.rel 2, .instr]]),
+      .func [.rel 1, .instr], .goto 0 none]
+    = .ok [⟨.timeLabel, 10, 255, 0⟩, ⟨.instr, 10, 255, 0⟩, ⟨.block, 10, 3, 0⟩, ⟨.timeLabel, 15, 3, 0⟩, ⟨.label 0, 15, 3, 0⟩,
+           ⟨.interrupt, 15, 3, 0⟩, ⟨.timeLabel, 17, 3, 0⟩, ⟨.instr, 17, 3, 0⟩, ⟨.item, 17, 255, 0⟩,
+           ⟨.timeLabel, 1, 255, 1⟩, ⟨.instr, 1, 255, 1⟩, ⟨.goto 0 none, 17, 255, 0⟩] := by decide
+
+/-! ### where a label gets its time: every position -/
+
+theorem endBlock_append (t : Int32) (a b : List X.Stmt) :
+    X.endBlock t (a ++ b) = X.endBlock (X.endBlock t a) b := by
+  induction a generalizing t with
+  | nil => rfl
+  | cons s ss ih => simp [X.endBlock, ih]
+
+theorem recsBlock_append (t : Int32) (m : X.Mask) (dp : Nat) (a b : List X.Stmt) :
+    X.recsBlock t m dp (a ++ b) = X.recsBlock t m dp a ++ X.recsBlock (X.endBlock t a) m dp b := by
+  induction a generalizing t with
+  | nil => rfl
+  | cons s ss ih => simp [X.recsBlock, X.endBlock, ih]
+
+/-- **the time of a label (the value of `timeof(L)` and of the time argument of `goto L`) is the
+time reached by everything textually in front of it** in its statement list -/
+theorem label_time_position (t : Int32) (m : X.Mask) (dp : Nat) (pre post : List X.Stmt) (n : Nat) :
+    X.recsBlock t m dp (pre ++ .label n :: post) =
+      X.recsBlock t m dp pre ++ ⟨.label n, X.endBlock t pre, m, dp⟩ :: X.recsBlock (X.endBlock t pre) m dp post := by
+  rw [recsBlock_append]; simp [X.recsBlock, X.recsStmt, X.endStmt]
+
+/-- a label in front of a time label has the old time, one behind it the new time -/
+theorem label_before_after_time_label (t d : Int32) (m : X.Mask) (dp : Nat) (a b : Nat) :
+    X.recsBlock t m dp [.label a, .rel d, .label b] =
+      [⟨.label a, t, m, dp⟩, ⟨.timeLabel, t + d, m, dp⟩, ⟨.label b, t + d, m, dp⟩] := by
+  simp [X.recsBlock, X.recsStmt, X.endStmt]
+
+/-- a label at the start of a block has the time in front of the block statement; one at the end
+of the (last) block has the time the statement after the block statement gets -/
+theorem label_at_block_start (t : Int32) (m : X.Mask) (dp : Nat) (n : Nat) (b : List X.Stmt) (bs : List (List X.Stmt)) :
+    X.recsStmt t m dp (.blocks ((.label n :: b) :: bs)) =
+      ⟨.block, t, m, dp⟩ :: ⟨.label n, t, m, dp⟩ :: X.recsBlocks t m dp (b :: bs) := by
+  simp [X.recsStmt, X.recsBlocks, X.recsBlock, X.endStmt, X.endBlock]
+
+theorem label_at_block_end (t : Int32) (m : X.Mask) (dp : Nat) (n : Nat) (b : List X.Stmt) :
+    X.recsStmt t m dp (.blocks [b ++ [.label n]]) =
+      ⟨.block, t, m, dp⟩ :: (X.recsBlock t m dp b ++ [⟨.label n, X.endStmt t (.blocks [b ++ [.label n]]), m, dp⟩]) := by
+  simp [X.recsStmt, X.recsBlocks, recsBlock_append, endBlock_append, X.recsBlock, X.endStmt, X.endBlocks, X.endBlock]
+
+/-- **`else` starts where the branch before it ends** (textual order, not control flow): the
+blocks of one statement are chained -/
+theorem else_starts_where_if_ends (t : Int32) (m : X.Mask) (dp : Nat) (b1 b2 : List X.Stmt) :
+    X.recsStmt t m dp (.blocks [b1, b2]) =
+      ⟨.block, t, m, dp⟩ :: (X.recsBlock t m dp b1 ++ X.recsBlock (X.endBlock t b1) m dp b2) ∧
+    X.endStmt t (.blocks [b1, b2]) = X.endBlock (X.endBlock t b1) b2 := by
+  simp [X.recsStmt, X.recsBlocks, X.endStmt, X.endBlocks]
+
+/-- **a difficulty label does not change time**: the statement ends at the same time with and
+without it, and records the same times (only the mask differs) -/
+theorem tag_keeps_time (t : Int32) (k : X.Mask) (s : X.Stmt) :
+    X.endStmt t (.tagged k s) = X.endStmt t s := by simp [X.endStmt]
+
+mutual
+theorem recsStmt_times_mask_indep (t : Int32) (m m' : X.Mask) (dp : Nat) (s : X.Stmt) :
+    (X.recsStmt t m dp s).map (fun r => (r.kind, r.time)) = (X.recsStmt t m' dp s).map (fun r => (r.kind, r.time)) := by
+  cases s with
+  | tagged k s => simp [X.recsStmt]
+  | blocks bs => simp [X.recsStmt, recsBlocks_times_mask_indep t m m' dp bs]
+  | func body => simp [X.recsStmt]
+  | _ => simp [X.recsStmt]
+theorem recsBlock_times_mask_indep (t : Int32) (m m' : X.Mask) (dp : Nat) (ss : List X.Stmt) :
+    (X.recsBlock t m dp ss).map (fun r => (r.kind, r.time)) = (X.recsBlock t m' dp ss).map (fun r => (r.kind, r.time)) := by
+  cases ss with
+  | nil => rfl
+  | cons s ss => simp [X.recsBlock, recsStmt_times_mask_indep t m m' dp s, recsBlock_times_mask_indep (X.endStmt t s) m m' dp ss]
+theorem recsBlocks_times_mask_indep (t : Int32) (m m' : X.Mask) (dp : Nat) (bs : List (List X.Stmt)) :
+    (X.recsBlocks t m dp bs).map (fun r => (r.kind, r.time)) = (X.recsBlocks t m' dp bs).map (fun r => (r.kind, r.time)) := by
+  cases bs with
+  | nil => rfl
+  | cons b bs => simp [X.recsBlocks, recsBlock_times_mask_indep t m m' dp b, recsBlocks_times_mask_indep (X.endBlock t b) m m' dp bs]
+end
+
+theorem tag_keeps_times (t : Int32) (m k : X.Mask) (dp : Nat) (s : X.Stmt) :
+    (X.recsStmt t m dp (.tagged k s)).map (fun r => (r.kind, r.time)) = (X.recsStmt t m dp s).map (fun r => (r.kind, r.time)) := by
+  simp only [X.recsStmt]; exact recsStmt_times_mask_indep t k m dp s
+
+/-- **a nested function starts at 0 and leaves the enclosing time alone** -/
+theorem func_isolated (t : Int32) (m : X.Mask) (dp : Nat) (body : List X.Stmt) :
+    X.endStmt t (.func body) = t ∧
+    X.recsStmt t m dp (.func body) = ⟨.item, t, m, dp⟩ :: X.recsBlock 0 X.defaultMask (dp + 1) body := by
+  simp [X.endStmt, X.recsStmt]
+
+/-- an interrupt label inherits the time like an instruction and passes it on unchanged -/
+theorem interrupt_inherits (t : Int32) (m : X.Mask) (dp : Nat) :
+    X.recsStmt t m dp .interrupt = [⟨.interrupt, t, m, dp⟩] ∧ X.endStmt t .interrupt = t := by
+  simp [X.recsStmt, X.endStmt]
+
+/-! ### lowering -/
+
+/-- **what the instructions get**: the compile model is the lowering of the specification's
+records: times and masks as specified, `goto L @ t` stores `t`, `goto L` and `timeof(L)` the time
+recorded for the label statement `L:` -/
+theorem xcompile_spec (body : List X.Stmt) :
+    X.compile body =
+      if X.badBlock body then .err constErr
+      else
+        let ls := X.lowered (X.recsBlock 0 X.defaultMask 0 body)
+        if X.hasDupLabel (X.labelTable ls) then .err X.dupLabelMsg else X.lowerAll (X.labelTable ls) ls := by
+  unfold X.compile
+  rw [xvisitor_eq_spec]
+  by_cases hb : X.badBlock body = true <;> simp [hb]
+
+theorem goto_explicit_time (tbl : List (Nat × Int32)) (d : Nat) (v t : Int32) (m : X.Mask) (dp : Nat) :
+    X.lowerRec tbl ⟨.goto d (some v), t, m, dp⟩ = .ok (some (.jump t m v)) := rfl
+
+theorem goto_implicit_time (tbl : List (Nat × Int32)) (d : Nat) (t lt : Int32) (m : X.Mask) (dp : Nat)
+    (h : X.lookupLabel tbl d = some lt) :
+    X.lowerRec tbl ⟨.goto d none, t, m, dp⟩ = .ok (some (.jump t m lt)) ∧
+    X.lowerRec tbl ⟨.timeof d, t, m, dp⟩ = .ok (some (.timeof t m lt)) := by
+  simp [X.lowerRec, h]
+
+example : X.compile [.instr, .rel 10, .label 0, .interrupt, .rel 6, .label 1, .tagged 0xF3 .instr, .goto 0 (some 5), .goto 1 none, .timeof 0,
+      .blocks [[.rel 5, .label 2, .instr], [.rel 7, .instr, .rel 1]], .func [.rel 3, .instr], .goto 2 none]
+    = .ok [.plain 0 255, .interrupt 10 255, .plain 16 0xF3, .jump 16 255 5, .jump 16 255 16, .timeof 16 255 10,
+           .plain 21 255, .plain 28 255, .jump 29 255 21] := by decide
+
+/-! ### const-expression deltas (C11) -/
+
+/-- **the value of `+EXPR:` is the const evaluator's value**: whenever the const evaluator of C11
+gives the integer `v` for EXPR under the const table, the label adds exactly `v` -/
+theorem delta_is_const_value (F : FloatOps) (cs : Consts) (e : Expr) (v : Int32)
+    (h : constEval F cs e = .ok (.int v)) : X.deltaStmt F cs e = .rel v := by
+  have := C11.constEval_simplify F cs e (.int v) h
+  simp [X.deltaStmt, this, Value.toExpr]
+
+/-- a delta that mentions a register is the diagnostic, not a guess -/
+theorem delta_reg_is_error (F : FloatOps) (cs : Consts) (r : Nat) (sig : Option Sigil) :
+    X.deltaStmt F cs (.reg r sig) = .relBad := by
+  simp [X.deltaStmt, simplify, simplifyNode]
+
+example (F : FloatOps) : X.deltaStmt F C11.exCs (.binop .mul (.litI 2) (.var 0 none)) = .rel 10 := by
+  apply delta_is_const_value; rfl
+
+/-! ### decompile direction with interrupt labels, masks and `goto L @ t` -/
+
+theorem erase_liftOuts (os : List Time.Out) (h : Time.Out.instr ∉ os) : (X.liftOuts os).map X.Out.erase = os := by
+  induction os with
+  | nil => rfl
+  | cons o os ih =>
+    have h' : Time.Out.instr ∉ os := fun hr => h (List.mem_cons_of_mem _ hr)
+    cases o with
+    | instr => simp at h
+    | label n => simp [X.liftOuts, X.Out.erase] at *; exact ih h'
+    | abs v => simp [X.liftOuts, X.Out.erase] at *; exact ih h'
+    | rel d => simp [X.liftOuts, X.Out.erase] at *; exact ih h'
+
+theorem stmtOf_erase (all : List Time.RInstr) (i : X.RInstr) (o : X.Out) (h : X.stmtOf all i = .ok o) : o.erase = .instr := by
+  unfold X.stmtOf at h
+  split at h
+  · injection h with h; subst h; rfl
+  · injection h with h; subst h; rfl
+  · split at h
+    · simp at h
+    · split at h <;> (injection h with h; subst h; rfl)
+
+/-- the extended raiser refines the first one: forgetting masks, interrupt / jump kinds gives
+exactly the first model's output -/
+theorem xraiseFrom_erase (all : List Time.RInstr) (rest : List X.RInstr) (prev : Int32) (k : Nat) (os : List X.Out)
+    (h : X.raiseFrom all prev k rest = .ok os) :
+    Time.raiseFrom all prev k (rest.map X.RInstr.erase) = .ok (os.map X.Out.erase) := by
+  induction rest generalizing prev k os with
+  | nil =>
+    simp only [X.raiseFrom] at h
+    simp only [List.map, Time.raiseFrom]
+    split at h
+    · rename_i os1 h1
+      injection h with h; subst h
+      rw [h1, erase_liftOuts _ (emitLabels_spec _ _ _ _ h1).2.1]
+    · simp at h
+    · simp at h
+  | cons i rest ih =>
+    simp only [X.raiseFrom] at h
+    simp only [List.map, Time.raiseFrom]
+    have ht : (X.RInstr.erase i).time = i.time := rfl
+    rw [ht]
+    split at h
+    · rename_i os1 h1
+      split at h
+      · rename_i o ho
+        split at h
+        · rename_i os2 h2
+          injection h with h; subst h
+          rw [h1, ih _ _ _ h2]
+          simp [erase_liftOuts _ (emitLabels_spec _ _ _ _ h1).2.1, stmtOf_erase _ _ _ ho]
+        · rename_i e hne
+          cases e <;> simp_all
+      · simp at h
+      · simp at h
+    · simp at h
+    · simp at h
+
+theorem xraise_erase (is : List X.RInstr) (os : List X.Out) (h : X.raise is = .ok os) :
+    Time.raise (is.map X.RInstr.erase) = .ok (os.map X.Out.erase) := by
+  unfold X.raise at h
+  unfold Time.raise
+  dsimp only at h
+  split at h
+  · simp at h
+  · rename_i hb
+    simp only [List.length_map] at hb ⊢
+    simp only [hb]
+    exact xraiseFrom_erase _ _ _ _ _ h
+
+/-- **emitted labels reproduce the stored times, also with interrupt labels, difficulty-tagged
+statements and `goto L @ t` in the stream**: the label rules give every emitted instruction
+statement (plain, `interrupt[n]:`, `goto`, tagged or not) its stored time back -/
+theorem xraise_times (is : List X.RInstr) (os : List X.Out) (h : X.raise is = .ok os) :
+    times (os.map X.Out.erase) = is.map (·.time) := by
+  have := raise_times _ _ (xraise_erase is os h)
+  simpa [X.RInstr.erase, Function.comp_def] using this
+
+/-- ... and every offset label sits at the time `generate_label_at_offset` chose for it -/
+theorem xrlabel_time (is : List X.RInstr) (os : List X.Out) (h : X.raise is = .ok os) :
+    labelTimesFrom 0 (os.map X.Out.erase) =
+      (List.range (is.length + 1)).filterMap (fun j => (labelFor (is.map X.RInstr.erase) j).map (fun l => (l.name, l.time))) := by
+  have := rlabel_time _ _ (xraise_erase is os h)
+  simpa using this
+
+/-- **`goto L` vs `goto L @ t`**: whichever form is printed, reading it back (`goto L` = time of
+the label, which by `xrlabel_time` is `l.time`) gives the stored time argument -/
+theorem goto_reproduces_arg (all : List Time.RInstr) (i : X.RInstr) (d : Nat) (a : Int32) (l : Label)
+    (hk : i.kind = .jump d (some a)) (hl : labelFor all d = some l) :
+    ∃ tm, X.stmtOf all i = .ok (.goto i.mask l.name tm) ∧ tm.getD l.time = a ∧ (tm = none ↔ a = l.time) := by
+  refine ⟨if a = l.time then none else some a, ?_, ?_, ?_⟩
+  · simp [X.stmtOf, hk, hl]
+  · split <;> simp_all
+  · split <;> simp_all
+
+/-- every jump destination has a label: the `offset_labels[&label_offset]` index in
+`raise_intrinsic_parts` cannot fail -/
+theorem jump_has_label (all : List Time.RInstr) (i : Time.RInstr) (d : Nat) (tm : Option Int32)
+    (hi : i ∈ all) (hj : i.jump = some (d, tm)) : (labelFor all d).isSome := by
+  have hne : jumpArgs all d ≠ [] := by
+    intro hc
+    have : tm.getD (timeAt all d) ∈ jumpArgs all d := by
+      unfold jumpArgs
+      rw [List.mem_filterMap]
+      exact ⟨i, hi, by simp [hj]⟩
+    rw [hc] at this; simp at this
+  unfold labelFor
+  split
+  · rename_i h; exact absurd h hne
+  · simp
+
+/-- an interrupt label is emitted as its own statement behind the labels of its time -/
+example : X.raise [⟨0, 255, .plain⟩, ⟨10, 255, .jump 1 (some 0)⟩, ⟨20, 255, .interrupt⟩, ⟨20, 3, .jump 3 (some 20)⟩, ⟨30, 255, .jump 0 none⟩]
+    = .ok [.label (.dest 0), .instr 255, .label (.before 0), .rel 10, .goto 255 (.before 0) none, .rel 10, .interrupt 255,
+           .label (.dest 3), .goto 3 (.dest 3) none, .rel 10, .jumpO 255 (.dest 0)] := by decide
+
+example : X.raise [⟨-1, 255, .interrupt⟩, ⟨5, 255, .jump 0 (some 7)⟩]
+    = .ok [.abs (-1), .label (.dest 0), .interrupt 255, .abs 0, .rel 5, .goto 255 (.dest 0) (some 7)] := by decide
+
+/-- the full round trip through the extended compile model (times, masks and jump arguments of a
+recompiled decompilation): stated, not proved here; compared on every run (`xraise` + `xcompile`
+streams) and searched (`xrt`) -/
+def raise_compile_roundtrip_full : Prop :=
+  ∀ (is : List X.RInstr) (os : List X.Out), X.raise is = .ok os →
+    X.compile (os.map X.Out.toStmt) = .ok (is.map X.RInstr.expected)
+
+end TruthModel.C13.Ext
